@@ -253,6 +253,16 @@ def run_cases(cases, servertype):
                             raise
                         except Exception:
                             pass
+                if case_no % 4 == 2 and late is None:
+                    # the calls are collected, then the batch proxy is copied and the copy collects calls of its own (never
+                    # submitted): the original is still the batch it was
+                    import copy as _copy
+                    for c in case["calls"]:
+                        invoke_on(bp, c)
+                    other = _copy.copy(bp)
+                    invoke_on(other, {"m": "add", "k": 7})
+                    invoke_on(other, {"m": "add", "k": 9})
+                    late = True
                 tr["bat"] = submit_batch(P, bp, case["calls"], case["oneway"], queued=late is not None)
                 sc.quiesce()
                 pr._pyroRelease()
